@@ -1,7 +1,9 @@
 package wrap
 
 import (
+	"math"
 	"sort"
+	"strconv"
 
 	"golang.org/x/image/math/fixed"
 	"pgregory.net/rapid"
@@ -175,6 +177,20 @@ var spans = func() [][]int {
 	return out
 }()
 
+// extremeWidths: "unbounded"-style maximum widths. maxWidth is a plain int in pixels and the
+// documentation sets no upper bound; 2^25 px is where a 26.6 fixed-point conversion of the width would
+// overflow. The values above 2^31 exist on 64-bit ints only (built at run time so that the package
+// still compiles where int has 32 bits).
+var extremeWidths = func() []int {
+	ws := []int{1<<25 - 1, 1 << 25, 1<<25 + 1, 1 << 26, 50_000_000, 1_000_000_000, 1 << 30, math.MaxInt32}
+	if strconv.IntSize == 64 {
+		for _, v := range []int64{1 << 31, 1 << 40, math.MaxInt64} {
+			ws = append(ws, int(v))
+		}
+	}
+	return ws
+}()
+
 // genWidths draws the per-call widths, concentrated around the cumulative advances between cluster
 // boundaries (so that candidate widths land on, just below and just above the line width), with and
 // without the truncator's advance; also 0, tiny and larger-than-everything widths.
@@ -193,7 +209,10 @@ func genWidths(t *rapid.T, c *Case, m *model) {
 	one := func() int {
 		var w int
 		// (rapid's integers lean towards the lower bound: the common kind gets the low values)
-		switch rapid.IntRange(0, 15).Draw(t, "widthKind") {
+		switch rapid.IntRange(0, 16).Draw(t, "widthKind") {
+		case 16:
+			// rare: a huge width (mixes with tiny ones when the widths vary per line)
+			return extremeWidths[rapid.IntRange(0, len(extremeWidths)-1).Draw(t, "extremeWidth")]
 		case 11:
 			w = 0
 		case 12:
